@@ -190,6 +190,22 @@ func judgeSpecial(c *mcx.Ctx, cs Case) (obs, sig, class string) {
 			return fmt.Sprintf("%v", out), "C14|wrong-capture|" + cs.What, "terminates"
 		}
 		return "captured", "", "terminates"
+	case "byproducts-of-run-with-line-normalisation", "byproducts-of-run-following-links":
+		// the two recording switches of InTotoRun concern artifacts; what the command wrote is reported byte for byte
+		dir := gen.FreshDir(c.Work, "run")
+		os.Chdir(dir)
+		defer os.Chdir("/")
+		norm := cs.What == "byproducts-of-run-with-line-normalisation"
+		md, err := intoto.InTotoRun("s", "", []string{"."}, []string{"."}, []string{"sh", "-c", `printf 'one\r\ntwo\rthree\n'; printf 'e1\r\ne2\r' >&2; exit 6`}, intoto.Key{}, []string{"sha256"}, nil, nil, norm, !norm, false)
+		c.Impl(1)
+		if err != nil {
+			return "error: " + err.Error(), "C14|run-fails|" + cs.What, "terminates"
+		}
+		l := md.GetPayload().(intoto.Link)
+		if l.ByProducts["stdout"] != "one\r\ntwo\rthree\n" || l.ByProducts["stderr"] != "e1\r\ne2\r" || l.ByProducts["return-value"] != float64(6) {
+			return fmt.Sprintf("by-products %q / %q / %v", l.ByProducts["stdout"], l.ByProducts["stderr"], l.ByProducts["return-value"]), "C14|byproducts-differ-from-capture|" + cs.What, "terminates"
+		}
+		return "by-products equal the capture", "", "terminates"
 	case "byproducts-of-run":
 		dir := gen.FreshDir(c.Work, "run")
 		os.Chdir(dir)
@@ -253,7 +269,7 @@ func enumerate(thorough bool, emit func(Case)) {
 	for _, s := range vol {
 		emit(Case{Part: "script", Script: s})
 	}
-	for _, w := range []string{"empty-command", "nil-command", "missing-executable", "not-executable", "invalid-executable-format", "missing-interpreter", "byproducts-of-run", "relative-command-in-run-directory", "bare-command-name-from-path"} {
+	for _, w := range []string{"empty-command", "nil-command", "missing-executable", "not-executable", "invalid-executable-format", "missing-interpreter", "byproducts-of-run", "byproducts-of-run-with-line-normalisation", "byproducts-of-run-following-links", "relative-command-in-run-directory", "bare-command-name-from-path"} {
 		emit(Case{Part: "special", What: w})
 	}
 }
